@@ -98,9 +98,8 @@ SPECS += [
         params=dict(RV, period=("int", None), input_value=("name", None), s=("int", None)),
         ctor={"skip": ("s",)},
         lets=dict(LETS, X="input_value", w1="s + period - 1", HS="f'{N}_HMAs'", HR="f'{N}_HMAr'", W1="f'{N}_WMA'", W2="f'{N}_WMAh'"),
-        # periods 2 and 3 give helper WMAs of period 1 (int(p / 2), int(sqrt(p))), outside the WMA contract
-        # (period >= 2): those two periods are decided by the bounded stand-in only
-        extra_pre=dict(PRE_RV, **{"period>=4": "period >= 4"}),
+        # periods 2 and 3 give helper WMAs of period 1 (int(p / 2), int(sqrt(p))): inside the WMA contract (period >= 1)
+        extra_pre=dict(PRE_RV, **{"period>=2": "period >= 2"}),
         inputs={"X": ("s", "num")},
         helpers=["f'{N}_HMAr'"],
         subs={
